@@ -30,7 +30,7 @@ def jobs(tier, seed):
                   gseed=seed + 1, max_orders=scale(tier, 60, 720), max_completions=scale(tier, 6, 7), name="orders")
     # actions that sit `scheduled` at the provider while pause / resume requests come in
     js += batches("conduct", scale(tier, 100, 2000), scale(tier, 20, 100), gen="mix", p_loop=0.2, P=P, gseed=seed + 3, scheds=2,
-                  lazy=[0, 40], p_fail=0.08, ack_chain="lazy", ctl=dict(req=0.15, max_req=4, reqs=["pausing", "paused", "resuming", "running"]),
+                  lazy=[0, 40], p_fail=0.08, ack_chain="lazy", ctl=dict(req=0.12, mid_req=0.15, max_req=4, reqs=["pausing", "paused", "resuming", "running"]),
                   name="lazy-start-with-pauses")
     # zone of a recorded defect (F20): the looping transition forks to a single-inbound task outside the loop
     js += batches("conduct", scale(tier, 40, 600), scale(tier, 20, 100), gen="loop", P=dict(P, p_loop_fork=1.0, p_loop_fork_single=1.0),
